@@ -293,7 +293,7 @@ def jobs(tier, seed):
     out.append(dict(op="mean", via="method", Rmin=1, R=1, L=2, bvdata=True))      # values up to the full 64-bit range
     out.append(dict(op="mean", via="method", Rmin=1, R=1, L=3, bvdata="big"))
     for op in ("argmax", "argmin"):
-        small = dict(R=2, L=3) if q else dict(R=3, L=3)
+        small = dict(R=2, L=3) if q else dict(R=2, L=4)
         for dt in ("int64", "uint8", "int8"):
             out.append(dict(base, op=op, via="method", Rmin=1, dtype=dt, **small))
         out.append(dict(base, op=op, via="np", Rmin=1, **(dict(R=2, L=2) if q else small)))
